@@ -1,5 +1,6 @@
 import QibGen.GatesReal
 import QibProofs.Lemmas.GateAlgebra
+import QibProofs.Lemmas.PauliFlags
 import Mathlib.Tactic.NormNum
 import Mathlib.Tactic.Positivity
 /-!
@@ -7,7 +8,8 @@ C16 — Hermiticity claims are sound (property theorems only; gate classes).
 `K.hermitianFlag` is the answer of `K.is_hermitian()` regenerated from the source; each theorem has the
 form `flag = true → Mᴴ = M` and its proof script works for either value of the flag as long as the claim
 is true, so flipping a flag to an unsound `True` in the source breaks the proof obligation.
-The Pauli / field-operator / Hamiltonian classes are covered in their own files.
+Pauli strings, weighted strings and Pauli operators are covered at the end of this file (executable model
+`QibModel/Pauli.lean`, phase table regenerated from the source); field-operator terms and Hamiltonians in C10 / C15.
 -/
 open Matrix NormedSpace Complex QibGen Qib.GateAlgebra
 
@@ -117,5 +119,36 @@ end Composite
 
 /-- non-vacuity: a controlled Hadamard really is flagged and is Hermitian -/
 example : ControlledGate.hermitianFlag HadamardGate.hermitianFlag = true := by decide
+
+/-! ### Pauli strings, weighted Pauli strings, Pauli operators (all lengths `n`, all phases, all weights) -/
+
+open Qib.Pauli in
+/-- `PauliString.is_hermitian` (`q % 2 == 0`, constants regenerated from the source) is exact: sound AND complete. -/
+theorem C16_PauliString_iff (n : ℕ) (P : PS) : P.isHermitian = true ↔ (P.mat n)ᴴ = P.mat n :=
+  Qib.Pauli.hermitian_iff n P
+
+open Qib.Pauli in
+/-- `WeightedPauliString.is_hermitian` (`([1,-1j,-1,1j][q] * weight).imag == 0`, table regenerated from the source) on
+exactly representable weights (Gaussian rationals; every float weight is one) is exact: sound AND complete. -/
+theorem C16_WeightedPauliString_iff (n : ℕ) (P : PS) (w : GQ) :
+    wpsIsHermitian P w = true ↔ (w.toC • P.mat n)ᴴ = w.toC • P.mat n :=
+  Qib.Pauli.wpsIsHermitian_iff n P w
+
+open Qib.Pauli in
+/-- the same for an arbitrary complex weight: the weighted string is Hermitian iff `(-i)^q · w` is real. -/
+theorem C16_WeightedPauliString_iff_complex (n : ℕ) (P : PS) (w : ℂ) :
+    ((-I) ^ P.q.val * w).im = 0 ↔ (w • P.mat n)ᴴ = w • P.mat n :=
+  Qib.Pauli.wps_hermitian_iff n P w
+
+open Qib.Pauli in
+/-- `PauliOperator.is_hermitian` (all weighted strings answer True) is sound for the operator's matrix (weighted sum). -/
+theorem C16_PauliOperator_sound (n : ℕ) (op : PauliOp GQ) (h : PauliOp.isHermitian op = true) :
+    (PauliOp.mat GQ.toC n op)ᴴ = PauliOp.mat GQ.toC n op :=
+  Qib.Pauli.pauliOp_isHermitian_sound n op h
+
+/-- non-vacuity / incompleteness is genuine at operator level: `X·(i) + X·(-i)` stored as two entries would answer False although
+the sum is Hermitian (0); the code merges equal strings on insertion, so this needs a constructor list with duplicates. The property
+claims completeness only for strings and weighted strings. -/
+example : Qib.Pauli.PauliOp.isHermitian [(⟨[false], [true], 0⟩, ⟨1, 0⟩)] = true := by decide +kernel
 
 end Qib.C16
